@@ -416,7 +416,7 @@ func c13Cache(p *load.Program, r *oblig.Report) {
 	okHit := false
 	for _, b := range an.Blocks(fn) {
 		_, ci := an.IfCond(b)
-		if ci != nil && ci.Op == token.GEQ && strings.HasPrefix(an.Shape(ci.X), "len(") && an.Shape(ci.Y) == "numPartitions" {
+		if ci != nil && ci.Op == token.LEQ && strings.HasPrefix(an.Shape(ci.Y), "len(") && an.Shape(ci.X) == "numPartitions" { // len(partitions) >= numPartitions
 			okHit = true
 		}
 	}
